@@ -15,6 +15,15 @@ void h_C03_next_evmux(void)
 #if HNS > 3
 	IN_QUEUE(3);
 #endif
+#if HNS > 4
+	IN_QUEUE(4);
+#endif
+#if HNS > 5
+	IN_QUEUE(5);
+#endif
+#if HNS > 6
+# error at most 6 constituents in this harness
+#endif
 	IN_BOOL(popp);
 	IN_RANGE(size_t, w, 0, HNS - 1);	/* witness child */
 	echs_evstrm_t *arr = malloc(HNS * sizeof(*arr));
